@@ -59,6 +59,17 @@ thread_local! {
 	pub static IO_COUNTER_BEFORE_ERROR: AtomicUsize = AtomicUsize::new(usize::MAX);
 }
 
+// Verification hook: number of instrumented failures raised on this thread.
+#[cfg(all(feature = "instrumentation", parity_db_verif))]
+thread_local! {
+	pub static VERIF_INJECTED_FAILURES: std::cell::Cell<u64> = const { std::cell::Cell::new(0) };
+}
+
+#[cfg(all(feature = "instrumentation", parity_db_verif))]
+pub fn verif_injected_failures() -> u64 {
+	VERIF_INJECTED_FAILURES.with(|c| c.get())
+}
+
 #[cfg(feature = "instrumentation")]
 pub fn set_number_of_allowed_io_operations(val: usize) {
 	IO_COUNTER_BEFORE_ERROR.with(|v| v.store(val, Ordering::Relaxed));
@@ -77,6 +88,8 @@ macro_rules! try_io {
 				.unwrap()
 		}) == 0
 		{
+			#[cfg(parity_db_verif)]
+			crate::error::VERIF_INJECTED_FAILURES.with(|c| c.set(c.get() + 1));
 			Err(crate::error::Error::Io(::std::io::Error::new(
 				::std::io::ErrorKind::Other,
 				"Instrumented failure",
